@@ -69,7 +69,7 @@ def gen(rng: random.Random, n: int) -> List[Dict[str, Any]]:
             out.append({"cfg": {"op": op, "batch": bt, "vocab": V, "dim": rng.choice([1, 3]), "padding_idx": None, "max_norm": None}, "c": {"op": op, "vocab": V, "batch": prod(bt)}})
         elif op == "dropout":
             p = rng.choice([(1, 4), (1, 2), (3, 4), (1, 10), (9, 10)])
-            out.append({"cfg": {"op": op, "p": p[0] / p[1], "training": True, "batch": [4], "n": 64}, "c": {"op": op, "p": list(p)}})
+            out.append({"cfg": dict({"op": op, "p": p[0] / p[1], "training": True, "batch": [4], "n": 64}, **({"via_module": True} if rng.random() < 0.4 else {})), "c": {"op": op, "p": list(p)}})
         elif op == "mse_loss":
             sh = rng.choice([[3], [2, 3], [4, 1, 2]])
             out.append({"cfg": {"op": op, "shape": sh, "reduction": rng.choice(["mean", "sum"])}, "c": {"op": op}})
